@@ -107,6 +107,17 @@ func main() {
 				worst = c
 			}
 		}
+		// stale exemptions (informational): an exemption that no longer matches a violated obligation
+		var stale []string
+		for k := range loadExemptions() {
+			if !usedExemptions[k] {
+				stale = append(stale, k)
+			}
+		}
+		sort.Strings(stale)
+		for _, k := range stale {
+			fmt.Printf("dgcheck: note: exemption not used by any property in tier %s: %s\n", tier, k)
+		}
 		os.Exit(worst)
 	}
 	for _, p := range properties {
